@@ -250,3 +250,169 @@ reg.add(Proc(
     loops={'L0': Loop(lambda c: _stable(c) + [('byorder-alive', c.l.byorder == c.h('_adapters')[c.a.self])]),
            'L1': Loop(lambda c: _stable(c))},
 ))
+
+
+# ------------------------------------------------------------------ base chain of a registry (property C06)
+# regbases[R]  the tuple stored as R.__dict__['__bases__'] (boxed; ABSENT before the first assignment)
+# ro[R]        the stored resolution order;  C3ORDER(regbases, R) the order ro.ro computes from the CURRENT base graph
+reg.fields['regbases'] = OBJ
+REGB = z3.ArraySort(Obj, Obj)
+C3ORDER = z3.Function('c3_order_of_registry', REGB, Obj, SeqO)
+reg.assumptions.append('ro.ro(registry) returns the C3 order of the registry over the __bases__ graph as it is at the time of the '
+                       'call (C03 covers ro.py); registries are compared by identity')
+BASES_ALIAS = {'__bases__': 'regbases'}
+
+
+def _pats(seq, j):
+    return [seq[j]] if z3.is_const(seq) and seq.decl().kind() == z3.Z3_OP_UNINTERPRETED else []
+
+
+def _ro_ro(ex, node, st):
+    """ro.ro(C): an assumed pure function of the current base graph; any further argument is outside the contract"""
+    if len(node.args) != 1 or node.keywords:
+        raise symex.Unsupported(node, 'ro.ro with arguments other than the registry: no contract')
+    out = []
+    for s, vs in ex.ev_list(node.args, st):
+        out.append((s, V(SEQO, C3ORDER(s.heap.get('regbases'), vs[0].t))))
+    return out
+
+
+def subs_of_reg(c, r, now=True):
+    h = c.h if now else c.h0
+    return h('$dict')[h('_v_subregistries')[r]]
+
+
+def links_wf(c):
+    a, b = z3.Consts('lw_a lw_b', Obj)
+    return [('every-registry-has-its-own-links-mapping', ForAllP([a, b], z3.Implies(a != b, c.h('_v_subregistries')[a] != c.h('_v_subregistries')[b]),
+                                                                      patterns=[z3.MultiPattern(c.h('_v_subregistries')[a], c.h('_v_subregistries')[b])])),
+            ('links-mappings-exist-and-are-not-caches', ForAllP([a], z3.And(c.h('_v_subregistries')[a] != NONE,
+                                                                             z3.Not(cachedict(c.h('_v_subregistries')[a]))),
+                                                                  patterns=[c.h('_v_subregistries')[a]]))]
+
+
+reg.add(Proc(A + 'AdapterRegistry._addSubregistry', [('self', OBJ), ('r', OBJ)], source='adapter.py:AdapterRegistry._addSubregistry',
+             modifies=['$dict'], requires=lambda c: [c.h('_v_subregistries')[c.a.self] != NONE],
+             ensures=lambda c: [('r-is-linked', subs_of_reg(c, c.a.self)[c.a.r] != ABSENT),
+                                ('nothing-else', ForAllP([z3.Const('as_o', Obj), z3.Const('as_k', Obj)], z3.Implies(
+                                    z3.Or(z3.Const('as_o', Obj) != c.h('_v_subregistries')[c.a.self], z3.Const('as_k', Obj) != c.a.r),
+                                    c.h('$dict')[z3.Const('as_o', Obj)][z3.Const('as_k', Obj)] == c.h0('$dict')[z3.Const('as_o', Obj)][z3.Const('as_k', Obj)])))]))
+reg.add(Proc(A + 'AdapterRegistry._removeSubregistry', [('self', OBJ), ('r', OBJ)], source='adapter.py:AdapterRegistry._removeSubregistry',
+             modifies=['$dict'], requires=lambda c: [c.h('_v_subregistries')[c.a.self] != NONE],
+             ensures=lambda c: [('r-is-not-linked', subs_of_reg(c, c.a.self)[c.a.r] == ABSENT),
+                                ('nothing-else', ForAllP([z3.Const('as_o', Obj), z3.Const('as_k', Obj)], z3.Implies(
+                                    z3.Or(z3.Const('as_o', Obj) != c.h('_v_subregistries')[c.a.self], z3.Const('as_k', Obj) != c.a.r),
+                                    c.h('$dict')[z3.Const('as_o', Obj)][z3.Const('as_k', Obj)] == c.h0('$dict')[z3.Const('as_o', Obj)][z3.Const('as_k', Obj)])))]))
+
+
+def _base_setbases_post(c):
+    s = c.a.self
+    return [('bases-recorded', c.h('regbases')[s] == box_seq(c.a.bases)),
+            ('stored-order-is-the-C3-order-of-the-current-base-graph', c.h('ro')[s] == C3ORDER(c.h('regbases'), s)),
+            ('other-registries-keep-bases-and-order', ForAllP([z3.Const('sb_o', Obj)], z3.Implies(z3.Const('sb_o', Obj) != s, z3.And(
+                c.h('regbases')[z3.Const('sb_o', Obj)] == c.h0('regbases')[z3.Const('sb_o', Obj)],
+                c.h('ro')[z3.Const('sb_o', Obj)] == c.h0('ro')[z3.Const('sb_o', Obj)])))),
+            ('notified-last', c.h('$notified')[s] == c.h0('$notified')[s] + 1),
+            ('only-caches-change', only_caches_change(c))]
+
+
+reg.add(Proc(A + 'BaseAdapterRegistry._setBases', [('self', OBJ), ('bases', SEQO)], source='adapter.py:BaseAdapterRegistry._setBases',
+             calls={'ro.ro': _ro_ro, 'self.changed': A + 'virtual.self_changed'}, attr_alias=BASES_ALIAS, locals={'$instdict': True},
+             modifies=['regbases', 'ro', '_generation', '$dict', '$log', '$notified'], ensures=_base_setbases_post))
+
+
+def _super_setbases(ex, node, st):
+    out = []
+    for s, vs in ex.ev_list(node.args, st):
+        args = {'self': ex.args['self'], 'bases': ex.coerce(vs[0], SEQO, s)}
+        out.extend(ex.apply_contract(node, s, reg.procs[A + 'BaseAdapterRegistry._setBases'], args))
+    return out
+
+
+def old_bases(c):
+    v = c.h0('regbases')[c.a.self]
+    return z3.If(v == ABSENT, Empty(SeqO), unbox_seq(v))
+
+
+def _ar_setbases_pre(c):
+    j = z3.Int('sp_j')
+    old = old_bases(c)
+    return links_wf(c) + [
+        ('recorded-bases-are-a-tuple', z3.Or(c.h('regbases')[c.a.self] == ABSENT, is_seq(c.h('regbases')[c.a.self]))),
+        ('linked-to-every-current-base', ForAllP([j], z3.Implies(z3.And(0 <= j, j < L(old)), subs_of_reg(c, old[j])[c.a.self] != ABSENT),
+                                                   patterns=_pats(old, j)))]
+
+
+def _links_frame(c):
+    """only the key `self` of links mappings changes; caches may change (changed()); nothing else"""
+    o, k = z3.Consts('lf_o lf_k', Obj)
+    r = z3.Const('lf_r', Obj)
+    return ForAllP([r, k], z3.Implies(k != c.a.self, subs_of_reg(c, r)[k] == subs_of_reg(c, r, False)[k]),
+                     patterns=[subs_of_reg(c, r)[k]])
+
+
+def _ar_setbases_post(c):
+    j = z3.Int('sq_j')
+    old = old_bases(c)
+    new = c.a.bases
+    r = z3.Const('sq_r', Obj)
+    return _base_setbases_post(c)[:4] + [
+        ('linked-to-every-new-base', ForAllP([j], z3.Implies(z3.And(0 <= j, j < L(new)), subs_of_reg(c, new[j])[c.a.self] != ABSENT),
+                                               patterns=[new[j]])),
+        ('unlinked-from-every-dropped-base', ForAllP([j], z3.Implies(
+            z3.And(0 <= j, j < L(old), z3.Not(Contains(new, old[j]))), subs_of_reg(c, old[j])[c.a.self] == ABSENT), patterns=_pats(old, j))),
+        ('links-of-other-registries-to-their-bases-untouched', _links_frame(c)),
+        ('registries-that-are-neither-old-nor-new-bases-keep-their-links', ForAllP([r], z3.Implies(
+            z3.And(z3.Not(Contains(old, r)), z3.Not(Contains(new, r))), subs_of_reg(c, r) == subs_of_reg(c, r, False)),
+            patterns=[subs_of_reg(c, r)]))]
+
+
+def _ar_L0(c):
+    j = z3.Int('l0_j')
+    old = old_bases(c)
+    r = z3.Const('l0_r', Obj)
+    return [('index-in-range', c.i <= L(old)),
+            ('dropped-bases-visited-are-unlinked', ForAllP([j], z3.Implies(
+                z3.And(0 <= j, j < c.i, z3.Not(Contains(c.a.bases, old[j]))), subs_of_reg(c, old[j])[c.a.self] == ABSENT), patterns=_pats(old, j))),
+            ('kept-bases-stay-linked', ForAllP([j], z3.Implies(
+                z3.And(0 <= j, j < L(old), Contains(c.a.bases, old[j])), subs_of_reg(c, old[j])[c.a.self] != ABSENT), patterns=_pats(old, j))),
+            ('only-own-key-changes', _links_frame(c)),
+            ('others-keep-their-links', ForAllP([r], z3.Implies(z3.Not(Contains(old, r)), subs_of_reg(c, r) == subs_of_reg(c, r, False)),
+                                                  patterns=[subs_of_reg(c, r)])),
+            ('attributes-stable', z3.And(c.h('_v_subregistries') == c.h0('_v_subregistries'), c.h('regbases') == c.h0('regbases'),
+                                         c.h('ro') == c.h0('ro'), c.h('$notified') == c.h0('$notified'),
+                                         c.h('_generation') == c.h0('_generation'), c.h('$log') == c.h0('$log'))),
+            ('only-links-mappings-change', ForAllP([z3.Const('l0_o', Obj)], z3.Implies(
+                ForAllP([r], c.h('_v_subregistries')[r] != z3.Const('l0_o', Obj)),
+                c.h('$dict')[z3.Const('l0_o', Obj)] == c.h0('$dict')[z3.Const('l0_o', Obj)])))]
+
+
+def _ar_L1(c):
+    j = z3.Int('l1_j')
+    old = old_bases(c)
+    new = c.a.bases
+    r = z3.Const('l1_r', Obj)
+    return [('new-bases-visited-are-linked', ForAllP([j], z3.Implies(z3.And(0 <= j, j < c.i), subs_of_reg(c, new[j])[c.a.self] != ABSENT),
+                                                        patterns=[new[j]])),
+            ('kept-bases-stay-linked', ForAllP([j], z3.Implies(
+                z3.And(0 <= j, j < L(old), Contains(new, old[j])), subs_of_reg(c, old[j])[c.a.self] != ABSENT), patterns=_pats(old, j))),
+            ('dropped-bases-are-unlinked', ForAllP([j], z3.Implies(
+                z3.And(0 <= j, j < L(old), z3.Not(Contains(new, old[j]))), subs_of_reg(c, old[j])[c.a.self] == ABSENT), patterns=_pats(old, j))),
+            ('only-own-key-changes', _links_frame(c)),
+            ('others-keep-their-links', ForAllP([r], z3.Implies(z3.And(z3.Not(Contains(old, r)), z3.Not(Contains(new, r))),
+                                                                  subs_of_reg(c, r) == subs_of_reg(c, r, False)), patterns=[subs_of_reg(c, r)])),
+            ('attributes-stable', z3.And(c.h('_v_subregistries') == c.h0('_v_subregistries'), c.h('regbases') == c.h0('regbases'),
+                                         c.h('ro') == c.h0('ro'), c.h('$notified') == c.h0('$notified'),
+                                         c.h('_generation') == c.h0('_generation'), c.h('$log') == c.h0('$log'))),
+            ('only-links-mappings-change', ForAllP([z3.Const('l0_o', Obj)], z3.Implies(
+                ForAllP([r], c.h('_v_subregistries')[r] != z3.Const('l0_o', Obj)),
+                c.h('$dict')[z3.Const('l0_o', Obj)] == c.h0('$dict')[z3.Const('l0_o', Obj)])))]
+
+
+reg.add(Proc(A + 'AdapterRegistry._setBases', [('self', OBJ), ('bases', SEQO)], source='adapter.py:AdapterRegistry._setBases',
+             calls={'super()._setBases': _super_setbases, 'r._removeSubregistry': A + 'AdapterRegistry._removeSubregistry',
+                    'r._addSubregistry': A + 'AdapterRegistry._addSubregistry'},
+             attr_alias=BASES_ALIAS, locals={'$instdict': True, 'old': SEQO},
+             modifies=['regbases', 'ro', '_generation', '$dict', '$log', '$notified'],
+             requires=_ar_setbases_pre, ensures=_ar_setbases_post,
+             loops={'L0': Loop(_ar_L0), 'L1': Loop(_ar_L1)}))
